@@ -1030,6 +1030,7 @@ class PyCdlib:
         parent_links = []
         child_links = []
         lastbyte = 0
+        seen_dir_extents = set([root_dir_record.extent_location()])
         dirs = collections.deque([root_dir_record])
         while dirs:
             dir_record = dirs.popleft()
@@ -1177,6 +1178,13 @@ class PyCdlib:
                         # record in the parent_links list for later linking.
                         parent_links.append(new_record)
                     if not dots and not rr_cl:
+                        # Each directory has an extent of its own.  A corrupt
+                        # (or hostile) ISO on which a directory points back
+                        # at one we have seen already would keep us walking
+                        # forever.
+                        if new_extent_loc in seen_dir_extents:
+                            raise pycdlibexception.PyCdlibInvalidISO('More than one directory record points at the same directory extent')
+                        seen_dir_extents.add(new_extent_loc)
                         dirs.append(new_record)
                         new_record.set_ptr(extent_to_ptr[new_extent_loc])
 
